@@ -150,6 +150,7 @@ type c09Inst struct {
 	m     [2]c09Model // reference model followed per store: [0] memory book, [1] datastore book
 	obs   [2]c09Obs   // observation after the last operation
 	fresh bool        // obs describes the current state
+	ambig bool        // an eviction tie could not be resolved by observation: this branch is not followed further
 	n     int         // operations applied
 	dead  string      // harness/infrastructure problem (never a violation)
 }
